@@ -200,6 +200,10 @@ def _attrs(d):
 def events(st):
     if not st.alive:
         return []
+    if len(st.model) > st.cfg[0]:
+        # more keys than max_size: reported by the invariant; the state is outside the bounds and is not expanded
+        # (a dictionary that keeps growing would otherwise blow the search up behind the defect)
+        return []
     evs = []
     held = [k for k in KEYS if k in st.model]
     absent = [k for k in KEYS if k not in st.model]
